@@ -3,7 +3,7 @@
    contig sizes and interval counts.  [cov I x] is the number of intervals of I covering base x. *)
 From Coq Require Import ZArith List Bool Permutation.
 From BNP Require Import Base.Prims Model.C08 Corr.C08 Proofs.C08 Proofs.C08_merge Proofs.C08_overlap Proofs.C08_sim Proofs.C08_bg
-  Proofs.C08_geom Proofs.C08_link Gen.C08 Bridge.C08.
+  Proofs.C08_geom Proofs.C08_big Proofs.C08_link Gen.C08 Bridge.C08.
 Import ListNotations.
 Open Scope Z_scope.
 
@@ -218,7 +218,26 @@ Theorem C08_similarity_genome_per_base :
 Proof. intros g H. exact (conj (jaccard_genome_is_per_base g H) (forbes_genome_is_per_base g H)). Qed.
 Print Assumptions C08_similarity_genome_per_base.
 
-(* LINK: for every correspondence case inside the property's domain — all 20 case classes: pileup, bedgraph pileup,
+(* Deep inputs (any number of intervals — the check generates more than 2^15 and 2^16 on a tiny contig) given with
+   multiplicities: a row (m, start, stop) stands for m copies.  The weighted per-base functions the correspondence
+   evaluates for these cases are exactly the models' outputs on the expanded multiset (and so, by the theorems above,
+   the library's specification on it): pileup = weighted coverage, mask = weighted coverage > 0, merge = maximal runs
+   (gaps <= d bridged) of the support, count_overlap = sum_x max(cov_w A x + cov_w B x - 1, 0). *)
+Theorem C08_weighted_is_model :
+  forall W WB d L, 0 <= d -> 0 <= L -> rows_ok W L -> rows_ok WB L ->
+  pileup_model (expand_w W) L = pileup_big_model W L
+  /\ mask_model (expand_w W) L = Some (mask_big_model W L)
+  /\ ((forall t, In t W -> t_start t < t_stop t) -> sortedb Z.leb (map fst (map untag W)) = true ->
+      merge_model d (expand_w W) = Some (merge_big_model d W L))
+  /\ count_overlap_model (expand_w W) (expand_w WB) = count_overlap_big_model W WB L.
+Proof.
+  intros W WB d L Hd HL H HB.
+  exact (conj (pileup_big_is_model W L HL H) (conj (mask_big_is_model W L HL H)
+        (conj (fun Hne Hs => merge_big_is_model d W L Hd HL H Hne Hs) (count_overlap_big_is_model W WB L H HB)))).
+Qed.
+Print Assumptions C08_weighted_is_model.
+
+(* LINK: for every correspondence case inside the property's domain — all 24 case classes: pileup, bedgraph pileup,
    mask, merge, the three sort routes, count_overlap, intersect, unique_intersect, jaccard, forbes, Geometry.jaccard,
    clip, extend_to_size, Geometry pileup / mask / merge, jaccard / forbes on several contigs — "the implementation's observation equals the model's output"
    (model_ok) implies "the observation satisfies the property" (spec_ok).  Unconditional since the repair a68b397
@@ -301,6 +320,13 @@ Proof.
   cbv zeta. split; [split; [intros z Hz; simpl in Hz; destruct Hz as [E|[E|[E|[]]]]; subst z; discriminate|vm_compute; split; [discriminate|reflexivity]]|].
   vm_compute. repeat split; reflexivity.
 Qed.
+Example C08_nonvacuous_weighted :
+  let W := [(3, 0, 2); (2, 1, 4)] in
+  expand_w W = [(0, 2); (0, 2); (0, 2); (1, 4); (1, 4)]
+  /\ pileup_model (expand_w W) 5 = [3; 5; 2; 2; 0] /\ pileup_big_model W 5 = [3; 5; 2; 2; 0]
+  /\ merge_model 0 (expand_w W) = Some [(0, 4)] /\ merge_big_model 0 W 5 = [(0, 4)]
+  /\ count_overlap_model (expand_w W) (expand_w [(2, 3, 5)]) = 11 /\ count_overlap_big_model W [(2, 3, 5)] 5 = 11.
+Proof. vm_compute. repeat split; reflexivity. Qed.
 Example C08_nonvacuous_link :
   let c := {| k_op := 18; k_size := 5; k_d := 1; k_sizes := [3; 5; 2]; k_rank := 1; k_a := [(0, 0, 1); (0, 3, 4); (0, 4, 5)];
               k_b := []; k_err := 0; k_dense := []; k_ivs := [(0, 0, 1); (0, 3, 5)]; k_num := 0; k_den := 1; k_kind := 0 |} in
